@@ -8,11 +8,13 @@
        (premises: `teq_laws` for the type equality, the function table is typed, nobody uses a closed
        channel — the part of Topo that typing cannot give);
      * C01_initial_typed : the initial configuration of a statically typed program is typed;
+     * C01_preservation_polarized / C01_no_error_polarized : the same for BOTH polarized modes
+       (asynchronous and synchronous = rendezvous steps);
      * C01_safety_partial : no schedule of an accepted program of the fragment reaches an error in
-       asynchronous mode — premises: teq_ok, tc_annotations_typed, topo_reachable (see
-       proofs/RtTheorems.v).
-   NOT proved: `safety_statement` (all forms incl. drop / split / DUP / GC, synchronous and
-   non-polarized modes): covered by the correspondence run only. *)
+       asynchronous or synchronous mode — premises: teq_ok, tc_annotations_typed, topo_reachable
+       (see proofs/RtTheorems.v).
+   NOT proved: `safety_statement` (all forms incl. drop / split / DUP / GC, and the non-polarized
+   mode): covered by the correspondence run only. *)
 From stdpp Require Import gmap strings.
 Require Import Grits.Base Grits.ModeDefs Grits.Modes Grits.STypes Grits.Forms Grits.Subst Grits.TcDeps Grits.Expand
                Grits.Tc Grits.TcTop Grits.Runtime Grits.spec.RtTyping Grits.spec.Topo
@@ -44,6 +46,18 @@ Theorem C01_no_error_async : forall D F teq, teq_laws D teq -> funs_typed D F te
   cfg_typed D F teq Δ c -> closed_unused D Async c -> step Async D F c ch <> SError who e.
 Proof. exact no_error_async. Qed.
 
+(* both polarized modes (Async: one-place buffers; Sync: rendezvous), every kind of step *)
+Theorem C01_preservation_polarized : forall D F teq, teq_laws D teq -> funs_typed D F teq ->
+  forall md Δ c ch c', is_np md = false ->
+  cfg_typed D F teq Δ c -> closed_unused D md c -> step md D F c ch = SStep c' ->
+  exists Δ', Δ ⊆ Δ' /\ cfg_typed D F teq Δ' c'.
+Proof. exact preservation_md. Qed.
+
+Theorem C01_no_error_polarized : forall D F teq, teq_laws D teq -> funs_typed D F teq ->
+  forall md Δ c ch who e, is_np md = false ->
+  cfg_typed D F teq Δ c -> closed_unused D md c -> step md D F c ch <> SError who e.
+Proof. exact no_error_md. Qed.
+
 Theorem C01_topo_closed_unused : forall md D c, is_np md = false -> Topo c -> closed_unused D md c.
 Proof. exact topo_closed_unused. Qed.
 
@@ -58,11 +72,11 @@ Theorem C01_safety_partial : forall teqD : tenv -> sty -> sty -> Prop,
   (* tc_annotations_typed *)
   (forall p p', typecheck p = Accept p' -> in_fragment p' -> static_typed (teqD (p_types p')) p') ->
   (* topo_reachable *)
-  (forall p p' c, typecheck p = Accept p' -> in_fragment p' ->
-                  reachable (p_types p') (p_funs p') (init_config p') c -> Topo c) ->
-  forall p p', typecheck p = Accept p' -> in_fragment p' ->
+  (forall p p' md c, typecheck p = Accept p' -> in_fragment p' -> is_np md = false ->
+                     reachable (p_types p') (p_funs p') md (init_config p') c -> Topo c) ->
+  forall p p' md, typecheck p = Accept p' -> in_fragment p' -> is_np md = false ->
   forall fuel pick c who e,
-    exec_run fuel pick Async (p_types p') (p_funs p') (init_config p') <> RError c who e.
+    exec_run fuel pick md (p_types p') (p_funs p') (init_config p') <> RError c who e.
 Proof. exact safety_partial. Qed.
 
 (* non-vacuity: a concrete accepted program of the fragment (cut, call, ⊗, ⊸, 1, print) runs to
@@ -73,14 +87,18 @@ Proof. vm_compute. repeat (split || constructor || eexists). Qed.
 
 Example C01_example_runs :
   run_example Async (fun _ _ => 0%nat) = Some (0%nat, ["served"; "done"], true) /\
-  run_example Async (fun _ n => pred n) = Some (0%nat, ["served"; "done"], true).
-Proof. split; vm_compute; reflexivity. Qed.
+  run_example Async (fun _ n => pred n) = Some (0%nat, ["served"; "done"], true) /\
+  (* synchronous: the top-level provider stays blocked offering its result *)
+  run_example Sync (fun _ _ => 0%nat) = Some (1%nat, ["served"; "done"], true).
+Proof. repeat split; vm_compute; reflexivity. Qed.
 
 Print Assumptions C01_step_error_inv.
 Print Assumptions C01_typed_weaken.
 Print Assumptions C01_typed_subst.
 Print Assumptions C01_preservation.
 Print Assumptions C01_no_error_async.
+Print Assumptions C01_preservation_polarized.
+Print Assumptions C01_no_error_polarized.
 Print Assumptions C01_topo_closed_unused.
 Print Assumptions C01_initial_typed.
 Print Assumptions C01_safety_partial.
